@@ -31,10 +31,30 @@ def reg_atomic():
     return i_lock < i_create and 0 <= i_closed < i_create and closes
 
 
-def s4run_constants(N, M, DT, tmpw=(), sig=False, shapes=("ok",), dropfirst=True, regatomic=None):
+def final_sweep():
+    """Design parameter read from the source: does `main` remove the still-listed temp files after processing_loop has
+    returned (workers are not joined)?  Anchors missing = tool error."""
+    s4 = open(os.path.join(common.REPO, "src/bin/s4.rs"), encoding="utf-8", errors="replace").read()
+    m = re.search(r"let ret: bool = processing_loop\(", s4)
+    if not m:
+        raise ToolError("anchor `let ret: bool = processing_loop(` not found in main")
+    tail = s4[m.end():]
+    end = re.search(r"\n}\n", tail)
+    if not end:
+        raise ToolError("end of main not found")
+    body = tail[:end.start()]
+    call = re.search(r"^\s*(\w+)\(\);\s*$", body, re.M)
+    if not call:
+        return False
+    fn = re.search(r"fn %s\(\)\s*\{(.*?)\n}\n" % re.escape(call.group(1)), s4, re.S)
+    return bool(fn and "NAMED_TEMP_FILES" in fn.group(1) and "remove_file" in fn.group(1))
+
+
+def s4run_constants(N, M, DT, tmpw=(), sig=False, shapes=("ok",), dropfirst=True, regatomic=None, epipe=False, sweep=None):
     return {"N": N, "M": M, "DT": set(DT), "CAP": common.channel_capacity(), "TMPW": set(tmpw), "SIG": sig,
             "SHAPES": set(shapes), "DROPFIRST": dropfirst,
-            "REGATOMIC": reg_atomic() if regatomic is None else regatomic, "EPIPE": False}
+            "REGATOMIC": reg_atomic() if regatomic is None else regatomic, "EPIPE": epipe,
+            "SWEEP": final_sweep() if sweep is None else sweep}
 
 
 def model_check(workdir, name, consts, invariants, properties, workers=8, timeout=900, coverage=False):
@@ -60,7 +80,7 @@ def reset_record(dts_ranks, shapes, seplen=0):
 # events of other specifications (BinSearch probes, block-zero verdict, resolved filters) recorded in the same
 # file are not part of the S4Run vocabulary and are left out before validation
 S4RUN_EVENTS = {"Spawn", "WStart", "SendStart", "SendDone", "WReturn", "TempCreate", "TempRegister", "ReaderDrop", "Recv", "SelNone",
-                "FiAll", "FirstPrint", "Print", "Printed", "AddNl", "Remove", "LoopExit", "Totals", "Return", "ExitEarly", "MainExit",
+                "FiAll", "FirstPrint", "Print", "Printed", "AddNl", "Remove", "LoopExit", "Totals", "Return", "ExitEarly", "Sweep", "MainExit",
                 "SigRaise", "PlanAbandoned", "HStart", "HCleared", "HRemoved", "HFlag"}
 
 
@@ -179,6 +199,8 @@ def simulate_plans(workdir, dts_ranks, num=20, depth=400, seed=1, tmpw=(), sig=F
                 plan += [("sig", "HRemoved")]
             elif kind == "F":
                 plan += [("sig", "HFlag")]
+            elif kind == "W":
+                plan += [("main", "Sweep")]
             elif kind == "E":
                 plan += [("main", "MainExit")]
         if bad:
